@@ -2,6 +2,7 @@ package main
 
 import (
 	"go/token"
+	"sort"
 	"go/types"
 	"strings"
 
@@ -372,4 +373,96 @@ func checkCleanupRootAlive(p *Prog, r *Report) {
 	if n == 0 {
 		r.Unk(rule, "pending files", "-", "no function of package receiver defers Cleanup of a pending file: re-read how temporary files are removed")
 	}
+}
+
+// checkIDListSymmetry — C14/IDLIST-SYMMETRY: after the file list the sender
+// writes a user-name list iff -o and a group-name list iff -g, each ended by an
+// int32 0; the receiver must read exactly those lists, in that order.
+func checkIDListSymmetry(p *Prog, r *Report) {
+	rule := "C14/IDLIST-SYMMETRY"
+	r.Rule(rule, "the id lists after the file list are read exactly when they are written: the sender writes the terminator of the user list under PreserveUid() and of the group list under PreserveGid() (in that order); the receiver calls its list reader once under Opts.PreserveUid and once under Opts.PreserveGid (in that order) — a list read that the sender did not write consumes the I/O-error word and the session hangs", 2)
+	g := p.ModGraph()
+	sfl := p.Func(pkgSender, "Transfer", "SendFileList")
+	ril := p.Func(pkgReceiver, "Transfer", "RecvIdList")
+	uF := p.Field(pkgReceiver, "TransferOpts", "PreserveUid")
+	gF := p.Field(pkgReceiver, "TransferOpts", "PreserveGid")
+	if sfl == nil || ril == nil || uF == nil || gF == nil {
+		r.Unk(rule, "anchors", "-", "SendFileList / RecvIdList / TransferOpts.PreserveUid|Gid not found")
+		return
+	}
+	type site struct {
+		pos   token.Pos
+		guard string
+	}
+	// sender: Buffer.WriteInt32(0) terminators with their option guard
+	var snd []site
+	for _, u := range g.unitFuncs(sfl) {
+		allCalls(u, func(c ssa.CallInstruction) {
+			if calleeName(c) != "(*"+pkgWire+".Buffer).WriteInt32" {
+				return
+			}
+			if k, ok := constInt(c.Common().Args[1]); !ok || k != 0 {
+				return
+			}
+			gd := ""
+			for _, f := range FactsAt(c) {
+				if call, ok := f.Cond.(*ssa.Call); ok && f.Val {
+					switch calleeName(call) {
+					case "(*" + pkgOpts + ".Options).PreserveUid":
+						gd += "U"
+					case "(*" + pkgOpts + ".Options).PreserveGid":
+						gd += "G"
+					}
+				}
+			}
+			snd = append(snd, site{c.Pos(), gd})
+		})
+	}
+	sort.Slice(snd, func(i, j int) bool { return snd[i].pos < snd[j].pos })
+	// receiver: calls of the list reader (a function of the unit that reads ids in a loop until 0) with their guard
+	var rcv []site
+	for _, u := range g.unitFuncs(ril) {
+		allCalls(u, func(c ssa.CallInstruction) {
+			h := c.Common().StaticCallee()
+			if h == nil || pkgPathOfFunc(h) != pkgReceiver || h == ril || h.Blocks == nil {
+				return
+			}
+			readsIDs := false
+			allCalls(h, func(hc ssa.CallInstruction) {
+				if calleeName(hc) == "(*"+pkgWire+".Conn).ReadInt32" && len(loopsContaining(naturalLoops(h), hc.Block())) > 0 {
+					readsIDs = true
+				}
+			})
+			if !readsIDs {
+				return
+			}
+			gd := ""
+			for _, f := range FactsAt(c) {
+				if !f.Val {
+					continue
+				}
+				if isFieldLoad(f.Cond, uF) {
+					gd += "U"
+				}
+				if isFieldLoad(f.Cond, gF) {
+					gd += "G"
+				}
+			}
+			rcv = append(rcv, site{c.Pos(), gd})
+		})
+	}
+	sort.Slice(rcv, func(i, j int) bool { return rcv[i].pos < rcv[j].pos })
+	seq := func(ss []site) string {
+		out := ""
+		for _, s := range ss {
+			if s.guard == "" {
+				out += "[unconditional]"
+			} else {
+				out += "[" + s.guard + "]"
+			}
+		}
+		return out
+	}
+	r.Cond(seq(snd) == "[U][G]", rule, "sender writes user list iff -o, then group list iff -g", p.Pos(sfl.Pos()), "the sender's list terminators are guarded "+seq(snd)+", expected [U][G]")
+	r.Cond(seq(rcv) == "[U][G]", rule, "receiver reads user list iff -o, then group list iff -g", p.Pos(ril.Pos()), "the receiver's list reads are guarded "+seq(rcv)+", expected [U][G]: with exactly one of -o/-g the two ends disagree about what follows the file list")
 }
